@@ -465,7 +465,11 @@ class Interp:
                     return (ct, env)
                 return (mk("const", path), env)
             if dk.startswith("Static"):
-                return (mk("static", c.get("path")), env)
+                sp = c.get("path")
+                sb = self.prog.body(sp)
+                if sb is not None and not sb.get("ty", "").startswith("once_cell::") and sb["body"].get("k") == "Lit":
+                    return self.x_Lit(sb["body"], env, fr)       # plain `static N: u32 = 47`
+                return (mk("static", sp), env)
             if dk in ("Fn", "AssocFn"):
                 return (mk("fnref", self.register_callee(c)), env)
             if dk == "ConstParam":
